@@ -61,6 +61,10 @@ class FString(object):
     def candidates(self):
         actual_candidates = []
 
+        if len(self.node.values) == 0:
+            # An empty f-string
+            return ['f' + quote + quote for quote in self.allowed_quotes]
+
         for quote in self.allowed_quotes:
             candidates = ['']
             debug_specifier_candidates = []
